@@ -43,6 +43,8 @@ def fmt(sig):
 
 
 def run(ctx):
+    from .configtime import refusals_not_rounded_for_display as _gate_digits
+    _gate_digits(ctx, 'C09.R4', ('Recipe.get_substance_used',))
     from .configtime import no_shared_mutable_defaults as _mutdef
     _mutdef(ctx, 'C09.R3', classes=('Recipe', 'RecipeStep'))
     from .configtime import precision_zero_is_a_value as _prec0
